@@ -267,12 +267,16 @@ class AsyncFIXConnection:
             f" {repr(msg.msg_type)}\n\t {msg_raw.decode()}\n"
         )
 
-        self._socket_writer.write(encoded_msg)
-        await self._socket_writer.drain()
-
+        # Journal first: no other task can run between the MsgSeqNum allocation and the
+        #   journaling, and a MsgSeqNum that may have reached the peer is never
+        #   forgotten (if the process dies before the write the peer sees a gap and
+        #   the message is resent from the journal)
         self._journaler.persist_msg(
             encoded_msg, self._session, MessageDirection.OUTBOUND
         )
+
+        self._socket_writer.write(encoded_msg)
+        await self._socket_writer.drain()
 
     async def send_test_req(self):
         """Sends TestRequest(35=1) and sets TestReqID for expected response from peer.
